@@ -16,8 +16,8 @@ ggmExpand_eq_expand ggmExpand_hermitian ggmExpand_traceless ggm_expansion_is_inv
 from_partial_props from_partial_traceless_props fromPartialCombine_props isOrthonormFlag_single
 isOrthonormFlag_iff isOrthonormFlag_sound isHermFlag_iff isHermFlag_sound isTracelessFlag_sound
 isTracelessFlag_sound_entries fromPartial_rejects_nonorthonormal fromPartial_rejects_nontraceless
-fromPartialGate_ok basis_source_shape'''.split()
-PINS = ['pinFullFromPartial', 'pinExpand', 'pinBasisArrayFinalize']
+fromPartialGate_ok '''.split()
+PINS = ['pinFullFromPartial', 'pinExpand', 'pinBasisArrayFinalize', 'C14_basis_source_shape']
 GEN_SITES = ['const:basis.flags', 'einsum:basis_ggm_expand_0', 'einsum:basis_Basis_istraceless_0',
              'einsum:basis__full_from_partial_0', 'einsum:basis_expand_0']
 COMPONENTS = ['pauli', 'ggm', 'ggm_expand', 'expand', 'basis_flags']
@@ -172,11 +172,28 @@ def check_from_partial(ctx, case):
         # a set that is not traceless: mix the identity into one element
         pass
     scale = rng.uniform(0.3, 3, len(elems))
+    # any normalisation: individual factors and a common one over many orders of magnitude
+    scale = scale*float(case.get('scale', 1.0))
     part = np.array(elems)*scale[:, None, None]
     labels = [f'L{i}' for i in range(len(part))]
-    b = ff.Basis.from_partial(part, traceless=traceless, labels=labels)
+    import warnings as _w
+    try:
+        with _w.catch_warnings(record=True) as wrn:
+            _w.simplefilter('always')
+            b = ff.Basis.from_partial(part, traceless=traceless, labels=labels)
+    except ValueError as e:
+        ctx.count(('fp', d, k, with_id, traceless, case['seed'], case.get('scale', 1.0)))
+        ctx.fail('from_partial_props', case, f'ValueError: {e}', 'a completed basis',
+                 {'kind': 'valid_partial_set_rejected'},
+                 f'from_partial d={d} k={k} scale={case.get("scale", 1.0)}: valid partial set rejected: {e}')
+        return
     g, h, r = basis_props(b)
     probs = []
+    if any('hermitian' in str(w.message).lower() for w in wrn):
+        probs.append(('spurious_hermiticity_warning', 0))
+    if traceless is None and not b.istraceless:
+        # the inputs are traceless up to the identity: the inferred flag must be "traceless"
+        probs.append(('traceless_not_inferred', 0))
     feats = {'traceless': bool(b.istraceless), 'identity_among_inputs': with_id}
     if len(b) != d*d or r != d*d or g > 1e-10 or h > 1e-12:
         probs.append(('basis_quality', [len(b), int(r), float(g), float(h)]))
@@ -200,7 +217,7 @@ def check_from_partial(ctx, case):
             ctx.fail('from_partial_props', case, {'labels_at_inputs': lab}, labels,
                      dict(feats, kind='labels_shifted'),
                      f'from_partial d={d}: labels not attached to their elements: {lab}')
-    ctx.count(('fp', d, k, with_id, traceless, case['seed']), nontrivial=True)
+    ctx.count(('fp', d, k, with_id, traceless, case['seed'], case.get('scale', 1.0)), nontrivial=True)
 
 
 def check_rejects(ctx, case):
@@ -316,7 +333,8 @@ def search(ctx, deep=False):
         dd = int(rng.choice([3, 4]))
         check_from_partial(ctx, {'seed': int(rng.integers(0, 2**31)), 'd': dd,
                                  'k': int(rng.integers(3, dd*dd + 1)), 'with_id': True,
-                                 'traceless': [None, True][int(rng.integers(0, 2))]})
+                                 'traceless': [None, True][int(rng.integers(0, 2))],
+                                 'scale': [1.0, 0.04, 12.5, 1e3, 1e-6][int(rng.integers(0, 5))]})
         if i % 4 == 0:
             check_rejects(ctx, {'seed': int(rng.integers(0, 2**31)), 'd': d})
         check_flags(ctx, {'seed': int(rng.integers(0, 2**31)), 'd': d,
